@@ -21,7 +21,8 @@ def num_desc(v):
 
 
 def dev_desc(kern, rev, tones=None):
-    xt, yt = tones or ([0, 1], [0])
+    import ast
+    xt, yt = tones or tuple(ast.literal_eval(t) for t in move_prog.TONES.get(kern, ("[0, 1]", "[0]")))
     return f"{'rev' if rev else 'fwd'}:{kern}[{','.join(map(str, xt))}|{','.join(map(str, yt))}]"
 
 
